@@ -9,7 +9,8 @@ pub mod alea {
     pub uninterp spec fn alea_uniform(min: i64, max: i64, r: i64) -> bool;
     #[verifier::external_body]
     pub fn i64_in_range(min: i64, max: i64) -> (r: i64)
-        requires (max > min) || may_reject()
+        requires (max > min) || may_reject(),
+                 (max as int) + 1 - (min as int) <= i64::MAX,      // `max + 1 - min` is computed in i64 inside alea (overflow panics in debug builds)
         ensures max > min, min <= r <= max, alea_uniform(min, max, r)
     { unimplemented!() }
     pub uninterp spec fn unit_interval(x: f64) -> bool;      // 0 <= x < 1
